@@ -277,6 +277,131 @@ fn scenario_scripts(seed: u64) {
     }
 }
 
+/// C13/C14/C17 under Miri: seeded Vec / String / Box programs in one arena, mirrored on std.
+/// Natively an out-of-bounds *read*, a read of uninitialised bytes or an overlapping
+/// `copy_nonoverlapping` inside a chunk has no visible effect; Miri reports it.
+fn scenario_collections(seed: u64) {
+    use bumpalo::boxed::Box as BBox;
+    use bumpalo::collections::{String as BString, Vec as BVec};
+    let mut r = Rng(seed ^ 0xC011);
+    let bump = Bump::new();
+    let mut bv: BVec<u64> = BVec::new_in(&bump);
+    let mut sv: Vec<u64> = Vec::new();
+    let mut bs = BString::new_in(&bump);
+    let mut ss = String::new();
+    let chars = ['a', 'é', '語', '😀', 'Z'];
+    for step in 0..240 {
+        let x = r.next() % 1000;
+        match r.below(22) {
+            0..=3 => {
+                bv.push(x);
+                sv.push(x);
+            }
+            4 => {
+                assert_eq!(bv.pop(), sv.pop());
+            }
+            5 => {
+                let i = r.below(sv.len() as u64 + 1) as usize;
+                bv.insert(i, x);
+                sv.insert(i, x);
+            }
+            6 => {
+                if !sv.is_empty() {
+                    let i = r.below(sv.len() as u64) as usize;
+                    assert_eq!(bv.remove(i), sv.remove(i));
+                }
+            }
+            7 => {
+                let n = r.below(9) as usize;
+                bv.extend((0..n as u64).map(|k| k + x));
+                sv.extend((0..n as u64).map(|k| k + x));
+            }
+            8 => {
+                let a = r.below(sv.len() as u64 + 1) as usize;
+                let b = a + r.below((sv.len() - a) as u64 + 1) as usize;
+                let d1: Vec<u64> = bv.drain(a..b).collect();
+                let d2: Vec<u64> = sv.drain(a..b).collect();
+                assert_eq!(d1, d2);
+            }
+            9 => {
+                let a = r.below(sv.len() as u64 + 1) as usize;
+                let b = a + r.below((sv.len() - a) as u64 + 1) as usize;
+                let n = r.below(6);
+                let d1: Vec<u64> = bv.splice(a..b, (0..n).map(|k| k * 3 + x)).collect();
+                let d2: Vec<u64> = sv.splice(a..b, (0..n).map(|k| k * 3 + x)).collect();
+                assert_eq!(d1, d2);
+            }
+            10 => {
+                bv.retain(|v| v % 3 != 0);
+                sv.retain(|v| v % 3 != 0);
+            }
+            11 => {
+                bv.dedup_by_key(|v| *v / 10);
+                sv.dedup_by_key(|v| *v / 10);
+            }
+            12 => {
+                let at = r.below(sv.len() as u64 + 1) as usize;
+                let t1 = bv.split_off(at);
+                let t2 = sv.split_off(at);
+                assert_eq!(&t1[..], &t2[..]);
+            }
+            13 => {
+                let n = r.below(12) as usize;
+                bv.resize(n, x);
+                sv.resize(n, x);
+            }
+            14 => {
+                bv.shrink_to_fit();
+                bv.reserve(r.below(20) as usize);
+            }
+            15 => {
+                let c = chars[r.below(5) as usize];
+                bs.push(c);
+                ss.push(c);
+            }
+            16 => {
+                assert_eq!(bs.pop(), ss.pop());
+            }
+            17 => {
+                let mut i = r.below(ss.len() as u64 + 1) as usize;
+                while !ss.is_char_boundary(i) {
+                    i -= 1;
+                }
+                bs.insert_str(i, "xé");
+                ss.insert_str(i, "xé");
+            }
+            18 => {
+                bs.retain(|c| c != 'x');
+                ss.retain(|c| c != 'x');
+            }
+            19 => {
+                let mut a = r.below(ss.len() as u64 + 1) as usize;
+                while !ss.is_char_boundary(a) {
+                    a -= 1;
+                }
+                bs.replace_range(a.., "語!");
+                ss.replace_range(a.., "語!");
+            }
+            20 => {
+                let b1 = BBox::new_in([x; 3], &bump);
+                let s1: BBox<[u64]> = b1.into();
+                let back = BBox::<[u64; 3]>::try_from(s1).ok().unwrap();
+                assert_eq!(*back, [x; 3]);
+                let lossy = BString::from_utf8_lossy_in(&[0xF0, 0x90, (x % 256) as u8, 0x41], &bump);
+                assert_eq!(lossy.as_str(), String::from_utf8_lossy(&[0xF0, 0x90, (x % 256) as u8, 0x41]));
+            }
+            _ => {
+                let bx = bv.clone().into_boxed_slice();
+                assert_eq!(&bx[..], &sv[..]);
+                let _ = bump.alloc_slice_copy(&[step as u8; 5]);
+            }
+        }
+        if bv[..] != sv[..] || bs.as_str() != ss.as_str() || bv.capacity() < bv.len() {
+            fail("C13", format!("sig=C13/miri-collections-differ-from-std step {}", step));
+        }
+    }
+}
+
 fn main() {
     let args: Vec<String> = std::env::args().collect();
     let seed: u64 = args.get(2).and_then(|s| s.parse().ok()).unwrap_or(1);
@@ -285,6 +410,7 @@ fn main() {
         Some("threads") => scenario_threads(seed),
         Some("handover") => scenario_handover(seed),
         Some("scripts") => scenario_scripts(seed),
+        Some("collections") => scenario_collections(seed),
         Some("noop") => {}
         _ => {
             eprintln!("usage: bumpmiri zst|threads|handover|scripts [seed]");
